@@ -2,11 +2,15 @@
 EXTENDS Remote, Json
 CONSTANTS MaxSend, MaxPeer,   \* bounds on what sources / the peer write
           MCKinds,            \* envelope kinds used by the environment in this configuration
-          DlPath              \* the path each downlink attaches to / writes to in this configuration
+          PathSel             \* which DlPath table (below) this configuration uses
 
 \* bounds (CONSTRAINT) and environment restriction (ACTION_CONSTRAINT)
 Bound == cnt.send <= MaxSend /\ cnt.peer <= MaxPeer
 KindFilter == (lastAct'.k \in {"peer_send", "dl_send", "agent_send"}) => lastAct'.msg.kind \in MCKinds
+\* the path each downlink attaches to / writes to (cfg files cannot spell tuples, hence the selector)
+PathsA == << <<"n2", "l1">>, <<"n2", "l1">>, <<"n2", "l2">> >>     \* two downlinks share a lane, one on a sibling lane
+PathsB == << <<"n1", "l1">>, <<"n2", "l1">>, <<"n1", "l2">> >>     \* same lane name on two nodes, two lanes of one node
+DlPath == IF PathSel = "A" THEN PathsA ELSE PathsB
 \* downlinks attach in order of their ids (symmetry), to their configured path, and write to it
 DlScript == /\ (lastAct'.k = "attach_req") =>
                  /\ <<lastAct'.node, lastAct'.lane>> = DlPath[lastAct'.d]
